@@ -5,6 +5,7 @@ import (
 	"crypto/sha256"
 	"encoding/hex"
 	"fmt"
+	"github.com/google/go-tdx-guest/abi"
 	"hash/crc32"
 	"math/big"
 	"runtime"
@@ -239,6 +240,32 @@ var c01Forgeries = []forgery{
 		h := sha256.Sum256(q.AttKey[:])
 		var rd [64]byte
 		copy(rd[:], h[:])
+		q.QeReportData = rd
+		gen.SignQe(q, w.Leaf.Key)
+	}},
+	{"hash-correct-but-relocated", "reject", func(w *gen.World, q *gen.RefQuote, s *gen.Stream) {
+		// the right digest at another offset of the 64-byte field (zeros before and behind it), or in the second half,
+		// or byte-reversed, or twice: the field is digest || 32 zero bytes and nothing else
+		gen.BindHash(q)
+		var h [32]byte
+		copy(h[:], q.QeReportData[:32])
+		var rd [64]byte
+		switch k := s.Intn(6); k {
+		case 0:
+			copy(rd[32:], h[:])
+		case 1:
+			copy(rd[:32], h[:])
+			copy(rd[32:], h[:])
+		case 2:
+			for i := range h {
+				rd[i] = h[31-i]
+			}
+		default:
+			copy(rd[1+s.Intn(31):], h[:])
+		}
+		if rd == q.QeReportData {
+			rd[63] = 1
+		}
 		q.QeReportData = rd
 		gen.SignQe(q, w.Leaf.Key)
 	}},
@@ -607,11 +634,18 @@ func TestC01(t *testing.T) {
 			if n == "qe_auth_data" || n == "signature" || n == "qe_report_signature" {
 				continue
 			}
-			for _, how := range []string{"byte-appended", "doubled", "last-byte-dropped", "nil"} {
+			for _, how := range []string{"byte-appended", "doubled", "last-byte-dropped", "nil", "replaced-by-a-copy-with-one-bit-changed"} {
 				how := how
 				muts = append(muts, mm{n + ":" + how, func(m *pb.QuoteV4) {
 					f := bytesFields(m)[n]
 					switch how {
+					case "replaced-by-a-copy-with-one-bit-changed":
+						// not an edit in place: the field is ASSIGNED a fresh slice (as a caller filling in a message does)
+						if len(*f) > 0 {
+							nb := append([]byte{}, *f...)
+							nb[len(nb)/2] ^= 0x10
+							*f = nb
+						}
 					case "byte-appended":
 						*f = append(append([]byte{}, *f...), 0x5a)
 					case "doubled":
@@ -630,8 +664,16 @@ func TestC01(t *testing.T) {
 			if !gen.ShardOwns(i) {
 				continue
 			}
-			for _, l := range []gen.Level{gen.LvlBase, gen.LvlColl} {
+			for li, l := range []gen.Level{gen.LvlBase, gen.LvlColl, gen.LvlBase} {
 				m := w.Q.ToProto()
+				if li == 2 {
+					// the same alteration applied to the message the library's own parser made of the genuine quote
+					pm, err := abi.QuoteToProto(append([]byte{}, w.Raw...))
+					if err != nil {
+						continue
+					}
+					m = pm.(*pb.QuoteV4)
+				}
 				mu.apply(m)
 				o := w.Options(l, w.NewGetter(), nil)
 				gen.Eval()
